@@ -3,7 +3,7 @@
 One helper call, assignment or deletion (copy-on-write AND _inplace=True, symbolic) on a template instance built from symbolic leaves; arguments conforming and
 non-conforming, callbacks that raise or return ill-typed values, missing indices/keys, unknown keywords; deep identity +
 content snapshots of receiver, arguments and a bystander instance, compared on every path where the call raised."""
-from vf.specops import K2_OPS, K2_SET_OPS, K3_OPS, K4_OPS, K5_OPS
+from vf.specops import K2_OPS, K2_SET_OPS, K3_OPS, K4_DUP_OPS, K4_OPS, K5_FAIL_OPS, K5_OPS
 from vf.stepcheck import K1_MATRIX, make, warm
 from vf.sym import Ob
 
@@ -34,6 +34,10 @@ def matrix(tier):
             continue
         for conform in (True, False):
             out.append(("K4", opname, None, conform))
+    for opname in K4_DUP_OPS:
+        out.append(("K4", opname, None, True))
+    for opname in K5_FAIL_OPS:
+        out.append(("K5", opname, None, True))
     for opname in K5_OPS:
         out.append(("K5", opname, None, True))
     return out
